@@ -200,6 +200,27 @@ def compare_ops(col, ddf, case, bxs, geom_cols, sjoin_ok, deep=True):
             col.violation("cx.raises", dict(case, box=list(b)), f"box {b}: {type(ex).__name__}: {str(ex)[:200]}",
                           cached=case.get("cached"), prov=case.get("provenance"), err=type(ex).__name__,
                           nparts_claimed=ddf.npartitions, nparts_real=_real_nparts(ddf))
+    # ---- several selections of the same collection evaluated in ONE graph (dask.compute(a, b), concat of selections)
+    try:
+        import dask
+        import dask.dataframe as dd
+        pairs = [(bxs[i], bxs[j]) for i in range(len(bxs)) for j in range(i + 1, len(bxs))][:: max(1, len(bxs) // 2)][:4]
+        for b1, b2 in pairs:
+            col.count("evaluations", 2)
+            e1 = frame_rows(P.cx[b1[0]:b1[2], b1[1]:b1[3]], geom_cols)[1]
+            e2 = frame_rows(P.cx[b2[0]:b2[2], b2[1]:b2[3]], geom_cols)[1]
+            a, b = ddf.cx[b1[0]:b1[2], b1[1]:b1[3]], ddf.cx[b2[0]:b2[2], b2[1]:b2[3]]
+            g1, g2 = dask.compute(a, b, scheduler=S)
+            if frame_rows(g1, geom_cols)[1] != e1 or frame_rows(g2, geom_cols)[1] != e2:
+                col.violation("cx.joint", dict(case, boxes=[list(b1), list(b2)]),
+                              f"dask.compute(cx{b1}, cx{b2}): rows {[r[0] for r in frame_rows(g1, geom_cols)[1]]} / {[r[0] for r in frame_rows(g2, geom_cols)[1]]} "
+                              f"vs pandas {[r[0] for r in e1]} / {[r[0] for r in e2]}")
+            cat = dd.concat([a, b]).compute(scheduler=S)
+            if sorted(map(repr, frame_rows(cat, geom_cols)[1])) != sorted(map(repr, e1 + e2)):
+                col.violation("cx.concat", dict(case, boxes=[list(b1), list(b2)]),
+                              f"dd.concat([cx{b1}, cx{b2}]): rows {sorted(r[0] for r in frame_rows(cat, geom_cols)[1])} vs pandas {sorted(r[0] for r in e1 + e2)}")
+    except Exception as ex:
+        col.violation("cx.joint.raises", case, f"{type(ex).__name__}: {str(ex)[:200]}")
     # ---- sjoin (left geometry must be points)
     if sjoin_ok:
         right = right_frame()
@@ -454,6 +475,9 @@ def sibling_frames(col):
     groups.append(("origin_vs_missing", [pz, pm]))
     lm = GeoDataFrame({"val": np.arange(3), "geometry": L.make_array("line", [((1, 1), (2, 2)), None, ((3, 3), (4, 3))], "float64")})
     le = GeoDataFrame({"val": np.arange(3), "geometry": L.make_array("line", [((1, 1), (2, 2)), (), ((3, 3), (4, 3))], "float64")})
+    two = GeoDataFrame({"val": np.arange(4), "geometry": L.make_array("point", [(0, 0), (1, 5), (7, 7), (3, 1)], "float64"),
+                        "other": L.make_array("polygon", [(sq(5, 5, 6, 6),), (sq(0, 0, 1, 1),), (sq(2, 2, 3, 3),), (sq(8, 0, 9, 1),)], "float64")})
+    groups.append(("active_geometry", [two.set_geometry("geometry"), two.set_geometry("other")]))
     groups.append(("missing_vs_empty", [lm, le]))
     groups.append(("empty_vs_missing", [le, lm]))
     boxes_ = [(-1, -1, 3.5, 3.5), (3.5, -1, 10, 10), (-0.5, -0.5, 0.5, 0.5)]
@@ -466,6 +490,11 @@ def sibling_frames(col):
                 try:
                     d = dd.from_pandas(F, npartitions=2)
                     alive.append(d)
+                    comp = d.compute(scheduler=S)
+                    if d.geometry.name != F.geometry.name or comp.geometry.name != F.geometry.name:
+                        col.violation("siblings.active", case, f"{tag}: frame {fi} has active geometry {F.geometry.name!r}; the collection says "
+                                      f"{d.geometry.name!r}, its computed frame {comp.geometry.name!r}")
+                        continue
                     want = F["geometry"].array.data.to_pylist()
                     got = d.compute(scheduler=S)["geometry"].array.data.to_pylist()
                     if got != want:
